@@ -41,6 +41,10 @@ def sec5():
         pid = p['id']
         if pid in mm.CLAIMED:
             text, note, tech, _ = mm.CLAIMED[pid]
+            if pid in getattr(mm, 'ROUND3', {}):
+                text = text + ' ' + mm.ROUND3[pid][0]
+                if mm.ROUND3[pid][1]:
+                    note = mm.ROUND3[pid][1]
             out.append("### %s — %s — claimed%s\n" % (pid, p['title'], '' if pid in ('C07', 'C18') else ' (fragment)'))
             out.append("**Decided.** " + text + "\n")
             out.append("**Not decided.** " + note + "\n")
